@@ -430,7 +430,14 @@ def canon_scene(scene):
     return {"objects": out, "params": params}
 
 
-TYCODES = None
+def mux_selector(o):
+    """The selector of a MultiplexerDistribution, read from the instance dictionary (attribute access on a
+    Distribution builds an AttributeDistribution through __getattr__, so never use getattr here)."""
+    d = o.__dict__
+    for name in ("_index", "index"):
+        if name in d:
+            return d[name]
+    return d["_dependencies"][0]
 
 
 def extract_graph(scenario, sample):
@@ -467,7 +474,7 @@ def extract_graph(scenario, sample):
         if not needsSampling(o):
             spec = "c"
         elif isinstance(o, MultiplexerDistribution):
-            i = visit(o.index)
+            i = visit(mux_selector(o))
             opts = [visit(x) for x in o.options]
             spec = f"m:{i}:{','.join(map(str, opts))}"
         elif isinstance(o, Distribution) and not o._deterministic:
